@@ -263,3 +263,20 @@ case("C02", "dinuc-write-other-region", "VIOLATION", [(E, "X_shuf[:, :, start:en
 case("C02", "walk-full-permutation", "VIOLATION", [(E, "\t\t\tnext_idxs_ = numpy.arange(n)\n\t\t\tnext_idxs_[:-1] = numpy.random.permutation(n-1)  # Keep last index", "\t\t\tnext_idxs_ = numpy.random.permutation(n)")], "PREFIX-PERM")
 case("C02", "walk-seed-late", "VIOLATION", [(E, "\tnumpy.random.seed(random_state)\n\n\tfor i in range(n_shuffles):\n\t\tfor char in range(n_chars):", "\tfor i in range(n_shuffles):\n\t\tnumpy.random.seed(random_state)\n\t\tfor char in range(n_chars):")], "R-RNG", "ersatz._fast_shuffle")
 case("C02", "shuffle-no-clone", "VIOLATION", [(E, "\t\tX_ = torch.clone(X)\n\t\tX_[:, :, start:end]", "\t\tX_ = X\n\t\tX_[:, :, start:end]")], None, "ersatz.shuffle")
+
+# ------------------------------------------------------------------ C13
+TT = "tangermeme/tools/tomtom.py"
+prefix("C13", "D8-prefix-results-uninit", TT, "932245e", "R-SCRATCH", "tools.tomtom._tomtom")
+case("C13", "f-partial-reset", "VIOLATION", [(TT, "\tf[:] = 0\n", "\tf[:nq, :n_bins] = 0\n")], "R-SCRATCH")
+case("C13", "A-reset-dropped", "VIOLATION", [(TT, "\tn = n_bins*nq + nq*offset\n\tA[:] = 0\n", "\tn = n_bins*nq + nq*offset\n")], "R-SCRATCH")
+case("C13", "bins-reset-dropped", "VIOLATION", [(TT, "\tn, n_bins = len(x), len(bins)\n\tbins[:] = 0\n", "\tn, n_bins = len(x), len(bins)\n")], "R-SCRATCH")
+case("C13", "B0-init-dropped", "VIOLATION", [(TT, "\tB[0] = -1\n\tfor i in range(1, min(nq, t_max+1)):\n\t\t_pairwise_max(B[i-1]", "\tfor i in range(1, min(nq, t_max+1)):\n\t\t_pairwise_max(B[i-1]")], "R-SCRATCH")
+case("C13", "tsums-init-short", "VIOLATION", [(TT, "\t\tfor k in range(nt+nq-1):\n\t\t\tk = uint64(k)\n\t\t\tt_sums[k] = nq * offset", "\t\tfor k in range(nt+nq-2):\n\t\t\tk = uint64(k)\n\t\t\tt_sums[k] = nq * offset")], "R-SCRATCH")
+case("C13", "acsum-tail-dropped", "VIOLATION", [(TT, "\t\t\tA_csum[i, j, n_bins*(j+1)+c:] = 1\n", "")], "R-SCRATCH")
+case("C13", "results-col4-not-reset", "VIOLATION", [(TT, "\t\tif reverse_complement == 1:\n\t\t\t_merge_rc_results(_results[pid])\n\t\telse:\n\t\t\t_results[pid, :, 4] = 0\n", "\t\tif reverse_complement == 1:\n\t\t\t_merge_rc_results(_results[pid])\n")], "R-SCRATCH")
+case("C13", "scratch-row-zero", "VIOLATION", [(TT, "\t\t_p_values(_gamma_int[pid], _B[pid], rr_inv, T_lens, -1, nq, offset, \n\t\t\t_results[pid])", "\t\t_p_values(_gamma_int[pid], _B[0], rr_inv, T_lens, -1, nq, offset, \n\t\t\t_results[pid])")], "R-TID")
+case("C13", "output-row-shared", "VIOLATION", [(TT, "\t\t\tresults[i] = _results[pid, :n_in_targets]", "\t\t\tresults[0] = _results[pid, :n_in_targets]")], "R-RACE")
+case("C13", "nearest-by-score", "VIOLATION", [(TT, "idxs = numpy.argsort(_results[pid, :n_in_targets, 0])[:n_nearest]", "idxs = numpy.argsort(_results[pid, :n_in_targets, 1])[:n_nearest]")], "N-NEAREST")
+case("C13", "threads-not-restored", "VIOLATION", [(TT, "\tif n_jobs != -1:\n\t\tnumba.set_num_threads(_n_jobs)\n", "\tif n_jobs != -1:\n\t\tnumba.set_num_threads(n_jobs)\n")], "THREADS")
+case("C13", "f-reset-explicit-loops", "HOLDS", [(TT, "\tf[:] = 0\n", "\tfor i in range(f.shape[0]):\n\t\tfor j in range(f.shape[1]):\n\t\t\tf[i, j] = 0\n")])
+case("C13", "A-zero-fill-spelling", "HOLDS", [(TT, "\tn = n_bins*nq + nq*offset\n\tA[:] = 0\n", "\tn = n_bins*nq + nq*offset\n\tA[:, :, :] = 0\n")])
